@@ -88,7 +88,7 @@ LENGTHS = {
         'D': 4,
     },
     'thorough': {
-        ('A', 0, 0): [7, 7, 7, 7, 7], ('A', 0, 1): [6, 6, 6, 6, 6],
+        ('A', 0, 0): [7, 7, 7, 7, 6], ('A', 0, 1): [6, 6, 6, 6, 6],
         ('A', 1, 0): [6, 6, 6, 5, 5], ('A', 1, 1): [5, 5, 5, 4, 4],
         ('B', 0, 0): [6, 6, 6, 6, 6], ('B', 0, 1): [5, 5, 5, 5, 5],
         ('C', 0, 0): [6, 6, 6, 6, 5], ('C', 0, 1): [5, 5, 5, 5, 5],
@@ -433,8 +433,8 @@ class Engine(object):
             prob = unchanged or ref.contiguous_tail(snap)
             if prob is None and is_write:
                 prob = ref.premature_drop(before.snap, len(before.ref.text), snap)
-            self._judge('C20.contiguous_tail', prob, W_ROLL if (rolled or not exc) else W_CALL, events,
-                        bool(snap.backups), extra)
+            where = W_OPEN if not is_write else (W_CALL if exc and not rolled else W_ROLL)
+            self._judge('C20.contiguous_tail', prob, where, events, bool(snap.backups), extra)
             # backup bound
             self._judge('C20.backup_bound', ref.backup_bound(snap), W_ROLL, events,
                         rolled and len(before.snap.backups) >= cfg['backup_count'], extra)
